@@ -199,6 +199,15 @@ fn sub_output_shapes(input: &[u8], st: &mut Stats) -> R {
     Ok(())
 }
 
+/// loadable-but-odd modules: type declarations, constants and switches over a tiny id pool
+/// (forward references, ids declared twice, constants before their types), where the
+/// disassembler's whole-module view of the types differs from the parser's
+fn sub_chaos(input: &[u8], st: &mut Stats) -> R {
+    let mut cs = Cs::new(input);
+    let (w, desc) = crate::checks::c04::type_chaos_words(&mut cs);
+    check_file(&words_to_bytes(&w), st, &|| desc.join("\n"))
+}
+
 fn sub_fixed(input: &[u8], st: &mut Stats) -> R {
     let k = idx(input);
     let hdr = words_to_bytes(&header_words((1, 0), 0));
@@ -346,6 +355,7 @@ pub const SUBS: &[Sub] = &[
     Sub { name: "fixed-files", f: sub_fixed },
     Sub { name: "files", f: sub_files },
     Sub { name: "output-shapes", f: sub_output_shapes },
+    Sub { name: "chaos-files", f: sub_chaos },
 ];
 
 pub fn run(ctx: &Ctx) {
@@ -354,6 +364,7 @@ pub fn run(ctx: &Ctx) {
     drive_enum(ctx, &SUBS[1], 8);
     drive_random(ctx, &SUBS[2], ctx.n(1_500, 300_000), 1400);
     drive_enum(ctx, &SUBS[3], (SHAPE_BASES.len() * SHAPE_OFFS * SHAPE_KINDS) as u64);
+    drive_random(ctx, &SUBS[4], ctx.n(800, 200_000), 200);
     let _ = std::fs::remove_dir_all(verif_root().join("target/c20-tmp"));
 }
 
@@ -361,7 +372,7 @@ pub fn finish(ctx: &Ctx) -> i32 {
     crate::engine::finish(
         ctx,
         Finish {
-            rule: "files: generated modules (ordered / interleaved / wild), half of them with 1-3 stacked byte-level faults, raw random bytes, 0-19 byte prefixes of a header, header + junk, loadable modules whose disassembly has a line of every length around each power of two from 256 to 65536 bytes as the last line / in the middle / before a function (2700 files), and fixed files (empty, 4 bytes, header only, the historical crashers, 64 KiB of OpNop). Oracle: spawn target/dis/release/rspirv-dis <file> (built from /repo's working tree): exit status 0, no panic message on stderr, stdout == disassemble() + newline if load_bytes succeeds in-process, else the Display of the loading error + newline, which must be a single line. non-trivial = file longer than 24 bytes; distinct = hash of the file.",
+            rule: "files: generated modules (ordered / interleaved / wild), half of them with 1-3 stacked byte-level faults, raw random bytes, 0-19 byte prefixes of a header, header + junk, loadable modules whose disassembly has a line of every length around each power of two from 256 to 65536 bytes as the last line / in the middle / before a function (2700 files), type-chaos modules (forward references, re-declared ids, constants before their types), and fixed files (empty, 4 bytes, header only, the historical crashers, 64 KiB of OpNop). Oracle: spawn target/dis/release/rspirv-dis <file> (built from /repo's working tree): exit status 0, no panic message on stderr, stdout == disassemble() + newline if load_bytes succeeds in-process, else the Display of the loading error + newline, which must be a single line. non-trivial = file longer than 24 bytes; distinct = hash of the file.",
             assumptions: vec!["the in-process library call is the reference for the text; its own correctness is C07/C03's subject".into()],
             trusted_base: vec!["OS process interface".into(), "cargo build of /repo's rspirv-dis".into()],
         },
